@@ -777,7 +777,8 @@ impl OutputList {
             if let Some(idx) = s.find('\n') {
                 let (line, remain) = s.split_at(idx);
                 s = &remain[1..];
-                content.push_str(line.trim_end());
+                // (white space as XML has it: U+00A0 and the like are characters)
+                content.push_str(line.trim_end_matches([' ', '\t', '\r']));
                 content.push('\n');
             } else {
                 content.push_str(s);
